@@ -371,8 +371,8 @@ def run(tier):
 
     r = core.rng('c17')
     trees = corpus_trees()
-    n_ok = 700 if tier == 'quick' else 9000
-    n_fail = 400 if tier == 'quick' else 5000
+    n_ok = 700 if tier == 'quick' else 24000
+    n_fail = 400 if tier == 'quick' else 12000
     for _ in range(n_ok):
         trees.append(gen_tree(r, False))
     for _ in range(n_fail):
@@ -380,7 +380,7 @@ def run(tier):
     payload = [impl_case(t) for t in trees]
     impl = core.run_impl('include_tree', payload, shards=core.NPROC)
 
-    pairs = ufr_pairs(r, 1500 if tier == 'quick' else 20000)
+    pairs = ufr_pairs(r, 1500 if tier == 'quick' else 50000)
     ufr = core.run_impl('include_tree', [{'ufr': [b, u]} for b, u, _ in pairs], shards=4)
 
     # ---- direct oracle on the include trees
@@ -457,7 +457,7 @@ def run(tier):
             else:
                 terms.append('false')
             meta.append(('ufr', (b, u), got))
-        budget = 500 if tier == 'quick' else 4000
+        budget = 500 if tier == 'quick' else 9000
         idxs = [i for i, t in enumerate(trees) if t['have_fetch']]
         if len(idxs) > budget:
             idxs = list(range(len(corpus_trees()))) + sorted(r.sample(idxs[len(corpus_trees()):], budget))
